@@ -462,7 +462,7 @@ func Main(c06only bool) {
 			case "tss.conc":
 				f := lib.Fields(l[2])
 				concCase(int(lib.ParseI(f[0])), int(lib.ParseI(f[1])), lib.ParseU(f[2]))
-			case "lsn.hist":
+			case "lsn.hist", "lsn.noreply":
 				lsnLines = append(lsnLines, l)
 			case "lsn.slowlink":
 				slowLines = append(slowLines, l)
